@@ -2369,6 +2369,13 @@ func (resp *Response) writeBodyStream(w *bufio.Writer, sendBody bool) (err error
 	}()
 
 	contentLength := resp.Header.ContentLength()
+	if contentLength >= 0 && len(resp.Header.contentLengthBytes) == 0 && !resp.Header.mustSkipContentLength() {
+		// No Content-Length line is going to be written: the header was
+		// deleted after the stream was set, or it could not be set because the
+		// status at that time was one without a body. The size of the stream
+		// is not declared then, and the body is framed by chunks.
+		contentLength = -1
+	}
 	if contentLength < 0 {
 		lrSize := limitedReaderSize(resp.bodyStream)
 		if lrSize >= 0 {
